@@ -78,10 +78,10 @@ def collect(h):
     # (RefFields) or every RecordID field (RecordIDs)?
     rel = "pkg/istructsmem/validation.go"
     body = h.func_body(rel, r"^func validateObjectIDs\(", "validateObjectIDs")
-    if re.search(r"range e\.fields\.RefFields\(\)", body):
-        plain_checked = "false"
-    elif re.search(r"range e\.RecordIDs\(false\)", body):
+    if re.search(r"range e\.RecordIDs\(false\)", body):
         plain_checked = "true"
+    elif re.search(r"range e\.fields\.RefFields\(\)", body):
+        plain_checked = "false"
     else:
         raise h.Missing(f"{rel}: cannot tell which argument fields validateObjectIDs checks")
     items.append(("c04_arg_plain_checked", "bool", plain_checked, rel))
